@@ -175,12 +175,24 @@ class LinearChecker(DagWalker):
         negative_fluents: Set["up.model.fnode.FNode"] = (
             numerator_negative_fluents | denominator_negative_fluents
         )
-        positivity = True
-        for a in expression.args:
-            if (a.is_int_constant() or a.is_real_constant()) and a.constant_value() < 0:
-                positivity = not positivity
+        # The denominator contains no fluents: as for the factors of a product
+        # (walk_times), its sign is read from its type; a negative denominator
+        # swaps the two sets, one of unknown sign puts every fluent in both.
+        t = self._env.type_checker.get_type(expression.arg(1))
+        assert isinstance(t, _IntType) or isinstance(t, _RealType)
+        if t.lower_bound is None or t.upper_bound is None:
+            positivity_unknown = True
+        elif t.lower_bound > 0:
+            positivity_unknown, positivity = False, True
+        elif t.upper_bound < 0:
+            positivity_unknown, positivity = False, False
+        else:
+            positivity_unknown = True
 
-        if positivity:
+        if positivity_unknown:
+            fluents = positive_fluents | negative_fluents
+            return (is_linear, fluents, fluents)
+        elif positivity:
             return (is_linear, positive_fluents, negative_fluents)
         else:
             return (is_linear, negative_fluents, positive_fluents)
